@@ -3,8 +3,10 @@ import IdspModel.Rust
 namespace Idsp
 
 def sweepNext (m : Mode) (rate state : Int) : R (Int × Int) := do
-  let b ← arithI m 64 "sweptsine.rs:29 s + BIAS" (state + 2 ^ 31)
-  let p ← arithI m 64 "sweptsine.rs:29 rate as i64 * (..)" (rate * shr b 32)
+  -- `(s >> 32) + (((s as u32) as i64 + BIAS) >> 32)` since the `fix:` commit (= floor((s + BIAS) / 2^32), no overflow)
+  let lo ← arithI m 64 "sweptsine.rs:30 (s as u32) as i64 + BIAS" (wrapU 32 state + 2 ^ 31)
+  let b ← arithI m 64 "sweptsine.rs:30 (s >> 32) + (..)" (shr state 32 + shr lo 32)
+  let p ← arithI m 64 "sweptsine.rs:30 rate as i64 * (..)" (rate * b)
   let t := state + p
   .ok (if inI 64 t then t else 0, state)
 
